@@ -717,6 +717,45 @@ func TestBuiltinEnumeration(t *testing.T) {
 	ev.ClassN("enumerated-builtin-calls", int64(calls))
 }
 
+// ---------- (c1) runaway recursion grid ----------
+//
+// Where the operand stack runs out depends on slot arithmetic (locals, pending
+// operands, how the argument is computed): every small combination, so that
+// the overflow is met at a multi-byte instruction, at the call, and at a
+// one-byte instruction at offset 0 of the callee.
+func TestRecursionGrid(t *testing.T) {
+	for l := 0; l <= 3; l++ {
+		for m := 0; m <= 4; m++ {
+			for form := 0; form <= 3; form++ {
+				for _, arg := range []string{"n", "n + 1"} {
+					var sb strings.Builder
+					sb.WriteString("f := func(n) {\n")
+					for i := 0; i < l; i++ {
+						fmt.Fprintf(&sb, "\tl%d := n\n", i)
+					}
+					sb.WriteString("\treturn ")
+					closers := ""
+					for i := 0; i < m; i++ {
+						if form == 0 {
+							fmt.Fprintf(&sb, "%d + (", i)
+							closers = ")" + closers
+						} else {
+							sb.WriteString([]string{"", "[true, ", "[undefined, ", "[false, "}[form])
+							closers = "]" + closers
+						}
+					}
+					sb.WriteString("f(" + arg + ")" + closers)
+					if m == 0 {
+						sb.WriteString(" + 1")
+					}
+					sb.WriteString("\n}\nr := f(0)\n")
+					check(t, "TestRecursionGrid", payload{Kind: "runaway-recursion-grid", Source: sb.String()}, []string{"recursion-grid"})
+				}
+			}
+		}
+	}
+}
+
 // ---------- (c2) exhaustive stdlib function x argument enumeration ----------
 //
 // "Misusing builtins" does not stop at the core builtins for an embedder who
